@@ -434,6 +434,9 @@ func (srv *Server) ShutdownContext(ctx context.Context) error {
 		rw.SetReadDeadline(aLongTimeAgo) // Unblock reads
 	}
 
+	// The drain channel of this generation, for the same reason as pconn.
+	shutdown := srv.shutdown
+
 	srv.lock.Unlock()
 
 	if testShutdownNotify != nil {
@@ -442,7 +445,7 @@ func (srv *Server) ShutdownContext(ctx context.Context) error {
 
 	var ctxErr error
 	select {
-	case <-srv.shutdown:
+	case <-shutdown:
 	case <-ctx.Done():
 		ctxErr = ctx.Err()
 	}
